@@ -10,7 +10,7 @@ specification over all weak orderings of their symbols (complete for comparison 
 import ast
 from ..core import AnalysisError, norm, dotted, calls_in, walk_no_nested, call_arg, parent, enclosing_stmt
 from ..order import Interp, Model, eval_function, Raised
-from ..flow import Flow, conjuncts, emptiness_test_kind
+from ..flow import Flow, conjuncts, emptiness_test_kind, iteration_constructs
 
 TREES = "typhon/trees.py"
 FILESET = "typhon/files/fileset.py"
@@ -124,9 +124,10 @@ class TreeFacts:
             bound[k.arg] = k.value
         roles = {}
         for pname, arg in bound.items():
+            arg = flow.resolve(arg, at=ctor, stop=(P,))
             rec = calls_in(arg, "_build_tree")
             inner = rec[0].args[0] if rec else arg
-            val = flow.resolve(inner, at=ctor)
+            val = inner
             roles[pname] = (val, bool(rec))
         # classify: the parameter receiving a non-recursive row selection is the centre bin,
         # the one receiving no row selection at all is the centre point
@@ -253,6 +254,7 @@ class TreeFacts:
         cptexts = self._cp_texts(info)
         child_masks = {attr_of.get(c[0]): c for c in info["children"]}
         found = {}
+        dflow = Flow(f)
         for st in walk_no_nested(f.node):
             if not isinstance(st, ast.If):
                 continue
@@ -263,7 +265,7 @@ class TreeFacts:
             # which child does the guard test for presence
             tested = None
             guard = []
-            for cj in conjuncts(st.test):
+            for cj in conjuncts(dflow.resolve(st.test, at=st, stop=(q, nodep))):
                 a = _is_not_none(cj)
                 if a is not None and isinstance(a, ast.Attribute) and isinstance(a.value, ast.Name) and a.value.id == nodep:
                     tested = a.attr
@@ -332,24 +334,24 @@ class TreeFacts:
         f = ctx.func(TREES, "IntervalTree." + fname)
         q, nodep = f.params[1], f.params[2]
         center_attr = info["attr_of"].get(info["center_param"])
-        comp = None
-        for n in walk_no_nested(f.node):
-            if isinstance(n, (ast.ListComp, ast.GeneratorExp)) and len(n.generators) == 1:
-                it = n.generators[0].iter
-                if isinstance(it, ast.Attribute) and isinstance(it.value, ast.Name) and it.value.id == nodep:
-                    comp = n
+        flow = Flow(f)
+        its = []
+        for ic in iteration_constructs(f.node):
+            it = flow.resolve(ic["iter"], at=ic["node"], stop=(q, nodep))
+            if isinstance(it, ast.Attribute) and isinstance(it.value, ast.Name) and it.value.id == nodep:
+                its.append((ic, it))
         construct = "IntervalTree.%s.scan" % fname
-        if comp is None:
-            ctx.ob(construct, False, "no comprehension over the centre rows of the node",
-                   "scan of %s.%s" % (nodep, center_attr), node=f.node, func=f)
-            return
-        g = comp.generators[0]
-        ctx.ob(construct + ".rows", g.iter.attr == center_attr, "iterates %s" % norm(g.iter),
+        if len(its) != 1 or len(its[0][0]["elts"]) != 1:
+            raise AnalysisError("%s: expected exactly one scan (comprehension or loop) over an attribute of %s, found %d" % (fname, nodep, len(its)))
+        ic, it = its[0]
+        comp = ic["node"]
+        ctx.ob(construct + ".rows", it.attr == center_attr, "iterates %s" % norm(it),
                "%s.%s (the centre bin stored by IntervalTreeNode)" % (nodep, center_attr), node=comp, func=f)
-        row = g.target.id if isinstance(g.target, ast.Name) else None
+        row = ic["target"].id if isinstance(ic["target"], ast.Name) else None
         if row is None:
             raise AnalysisError("scan target is not a name")
-        filt = ast.BoolOp(op=ast.And(), values=list(g.ifs)) if len(g.ifs) > 1 else (g.ifs[0] if g.ifs else ast.Constant(True))
+        ifs = [flow.resolve(x, at=comp, stop=(q, nodep, row)) for x in ic["ifs"]]
+        filt = ast.BoolOp(op=ast.And(), values=ifs) if len(ifs) > 1 else (ifs[0] if ifs else ast.Constant(True))
         funcs = {"interval_overlaps": lambda a, b: OVspec(a, b), "interval_contains": lambda i, p: INspec(i, p)}
         # the extracted predicates are checked by C03.pred; here the spec versions are composed
         funcs = {"interval_overlaps": self.OV, "interval_contains": self.IN}
@@ -366,12 +368,12 @@ class TreeFacts:
         ctx.ob(construct + ".filter", ok, "keep row iff %s" % norm(filt),
                "row %s the query (closed bounds)" % ("overlaps" if kind == "q" else "contains"),
                node=comp, func=f, witness=wit)
-        elt = comp.elt
+        elt = ic["elts"][0]
         while isinstance(elt, ast.Call) and dotted(elt.func) == "int" and elt.args:
             elt = elt.args[0]
         ok = isinstance(elt, ast.Subscript) and isinstance(elt.value, ast.Name) and elt.value.id == row \
             and isinstance(elt.slice, ast.Constant) and elt.slice.value in (2, -1)
-        ctx.ob(construct + ".index", ok, "collects %s" % norm(comp.elt), "the index column (column 2 / last) of the row",
+        ctx.ob(construct + ".index", ok, "collects %s" % norm(ic["elts"][0]), "the index column (column 2 / last) of the row",
                node=comp, func=f)
 
     # -- C03.early -------------------------------------------------------------------
@@ -456,9 +458,10 @@ class TreeFacts:
         if not (isinstance(n, ast.Attribute) and isinstance(n.value, ast.Name) and n.value.id == "self"):
             return None
         P = self.f_init.params[1]
+        flow = Flow(self.f_init)
         for st in walk_no_nested(self.f_init.node):
             if isinstance(st, ast.Assign) and len(st.targets) == 1 and dotted(st.targets[0]) == "self." + n.attr:
-                v = norm(st.value)
+                v = norm(flow.resolve(st.value, at=st, stop=(P,)))
                 if v in ("%s.size" % P, "np.size(%s)" % P, "%s.shape[1]" % P, "len(%s[0])" % P, "%s.shape[0] * 2" % P):
                     return "self.%s = %s counts end points / columns, not intervals" % (n.attr, v)
         return None
@@ -468,10 +471,11 @@ class TreeFacts:
         if not (isinstance(n, ast.Attribute) and isinstance(n.value, ast.Name) and n.value.id == "self"):
             return False
         P = self.f_init.params[1]
+        flow = Flow(self.f_init)
         for st in walk_no_nested(self.f_init.node):
             if isinstance(st, ast.Assign) and len(st.targets) == 1 and isinstance(st.targets[0], ast.Attribute) \
                     and st.targets[0].attr == n.attr and dotted(st.targets[0]) == "self." + n.attr:
-                v = norm(st.value)
+                v = norm(flow.resolve(st.value, at=st, stop=(P,)))
                 if v in ("%s.shape[0]" % P, "len(%s)" % P):
                     return True
         return False
@@ -485,6 +489,31 @@ class TreeFacts:
             if isinstance(a, ast.Tuple) and len(a.elts) == 2 and all(
                     isinstance(e, ast.Attribute) and isinstance(e.value, ast.Name) and e.value.id == "self" for e in a.elts):
                 return a.elts[0].attr, a.elts[1].attr
+        # spelled out as comparisons: the roles are the ones under which the guard is a sound "outside" test
+        flag = g.params[3] if len(g.params) > 3 else None
+        for st in g.body:
+            if isinstance(st, ast.If) and any(isinstance(x, ast.Return) for x in st.body) and not st.orelse:
+                guard = [cj for cj in conjuncts(st.test) if not (isinstance(cj, ast.Name) and cj.id == flag)]
+                attrs = []
+                for cj in guard:
+                    for n in ast.walk(cj):
+                        if isinstance(n, ast.Attribute) and isinstance(n.value, ast.Name) and n.value.id == "self" and n.attr not in attrs \
+                                and not (isinstance(parent(n), ast.Call) and parent(n).func is n):
+                            attrs.append(n.attr)
+                if len(attrs) == 2 and guard:
+                    gexpr = ast.BoolOp(op=ast.And(), values=guard) if len(guard) > 1 else guard[0]
+                    sound = []
+                    for lo, hi in ((attrs[0], attrs[1]), (attrs[1], attrs[0])):
+                        m = Model(["mn", "mx", "p"], constraint=lambda a: a["mn"] <= a["mx"])
+                        ok, _, _ = m.compare(lambda a: bool(Interp({"self." + lo: a["mn"], "self." + hi: a["mx"], g.params[1]: a["p"]},
+                                                                    {"interval_contains": self.IN, "interval_overlaps": self.OV}).ev(gexpr)),
+                                             lambda a: not (a["mn"] <= a["p"] <= a["mx"]), mode="implies")
+                        if ok:
+                            sound.append((lo, hi))
+                    if len(sound) == 1:
+                        return sound[0]
+                    return attrs[0], attrs[1]
+                break
         raise AnalysisError("_query_point: guard interval_contains((self.lo, self.hi), point) not found")
 
     # -- C03.extent ------------------------------------------------------------------
@@ -601,7 +630,10 @@ class TreeFacts:
             t = st.test
             is_seq = isinstance(t, ast.Call) and dotted(t.func) == "isinstance" and norm(t.args[0]) == item
             qb = [c for s in st.body for c in calls_in(s, "_query")]
-            pb = [c for s in st.orelse for c in calls_in(s, "_query_point")]
+            other = st.orelse
+            if not other and st.body and isinstance(st.body[-1], (ast.Return, ast.Raise)):
+                other = f.body[f.body.index(st) + 1:]
+            pb = [c for s in other for c in calls_in(s, "_query_point")]
             fact = "if %s: %s else: %s" % (norm(t), [norm(c) for c in qb], [norm(c) for c in pb])
             ok = is_seq and len(qb) == 1 and len(pb) == 1
             # the hit list is turned into a truth value by bool()/len(): any()/all() look at the VALUES (index 0 is falsy)
@@ -691,7 +723,7 @@ def _row_selection(val, P):
 
 def _contains_scan(st, nodep):
     for n in walk_no_nested(st):
-        if isinstance(n, (ast.ListComp, ast.GeneratorExp)):
+        if isinstance(n, (ast.ListComp, ast.GeneratorExp, ast.For)):
             return True
     return False
 
@@ -887,21 +919,42 @@ def rule_match(ctx):
         ctx.ob("FileSet.match.tree.order", not (set(wnodes) & after), "widening statements reachable after the tree was built: %s" % bool(set(wnodes) & after),
                "the secondaries are widened before IntervalTree(...) copies them", node=trees[0], func=f)
     # result loop
-    loops = [st for st in flow.stmts if isinstance(st, ast.For) and calls_in(st.iter, "enumerate")]
-    if not loops:
-        raise AnalysisError("match(): no enumerate loop over the results")
-    lp = loops[0]
-    en = calls_in(lp.iter, "enumerate")[0]
-    resname = norm(en.args[0])
     qst = enclosing_stmt(queries[0])
-    ok_res = isinstance(qst, ast.Assign) and norm(qst.targets[0]) == resname
-    ivar, ovar = (lp.target.elts[0].id, lp.target.elts[1].id) if isinstance(lp.target, ast.Tuple) else (None, None)
+    if not (isinstance(qst, ast.Assign) and isinstance(qst.targets[0], ast.Name)):
+        raise AnalysisError("match(): the result of tree.query is not assigned to a name")
+    resname = qst.targets[0].id
+    loops = [st for st in flow.stmts if isinstance(st, ast.For) and any(isinstance(n, ast.Name) and n.id == resname for n in ast.walk(st.iter))]
+    if len(loops) != 1:
+        raise AnalysisError("match(): expected one loop over the results of tree.query")
+    lp = loops[0]
+    it = lp.iter
+    pair = None       # (how the primary of this result is addressed, name of the result variable)
+    if isinstance(it, ast.Call) and dotted(it.func) == "enumerate" and len(it.args) == 1 and norm(it.args[0]) == resname \
+            and isinstance(lp.target, ast.Tuple) and len(lp.target.elts) == 2 and all(isinstance(e, ast.Name) for e in lp.target.elts):
+        ivar, ovar = lp.target.elts[0].id, lp.target.elts[1].id
+        pair = ({"%s[%s]" % (L1, ivar)}, ovar, "for %s, %s in enumerate(%s)" % (ivar, ovar, resname), lambda t: "%s[%s]" % (t, ivar))
+    elif isinstance(it, ast.Call) and dotted(it.func) == "zip" and len(it.args) == 2 and isinstance(lp.target, ast.Tuple) and len(lp.target.elts) == 2 \
+            and all(isinstance(e, ast.Name) for e in lp.target.elts):
+        srcs = [norm(a_) for a_ in it.args]
+        if resname not in srcs:
+            raise AnalysisError("match(): zip loop does not iterate the query results directly")
+        k = srcs.index(resname)
+        pvar, ovar = lp.target.elts[1 - k].id, lp.target.elts[k].id
+        other_src = srcs[1 - k]
+        # zip(L, results): the primary variable is element i of L
+        pair = ({pvar} if other_src == L1 else {"<element of %s>" % other_src}, ovar, "for ... in zip(%s)" % ", ".join(srcs),
+                lambda t: pvar if other_src == t else "<element of %s>" % other_src)
+    else:
+        raise AnalysisError("match(): result loop is neither enumerate(results) nor zip(primaries, results)")
+    okyp, ovar, how, _ = pair
+    ok_res = True
     yields = [n for n in walk_no_nested(lp) if isinstance(n, ast.Yield)]
     if len(yields) != 1 or not isinstance(yields[0].value, ast.Tuple):
         raise AnalysisError("match(): expected a single `yield primary, matches`")
     y = yields[0]
     yp, ym = y.value.elts
-    ctx.ob("FileSet.match.yield.primary", ok_res and norm(yp) == "%s[%s]" % (L1, ivar), "yield %s, ... for %s, %s in enumerate(%s)" % (norm(yp), ivar, ovar, resname),
+    ctx.ob("FileSet.match.yield.primary", norm(flow.resolve(yp, at=y, stop=tuple(n.id for n in lp.target.elts))) in okyp or norm(yp) in okyp,
+           "yield %s, ... %s" % (norm(yp), how),
            "result i of tree.query(primaries) is paired with %s[i]" % L1, node=y, func=f)
     mval = flow.resolve(ym, at=y, depth=1)
     okm = False
